@@ -93,8 +93,17 @@ class Gen:
         """Literal 0 / 1 / -1 trigger the constructor-time shortcuts (x*0 is
         a plain number), which the rate bookkeeping here does not model; C01
         covers them. Arithmetic in these specs uses other constants."""
-        n = self.nodes[i]
-        if n['k'] == 'c' and n['v'] in (0, 1, -1):
+        def special(j):
+            n = self.nodes[j]
+            if n['k'] == 'c':
+                return n['v'] in (0, 1, -1)
+            if n['k'] == 'list':
+                # (also a 0 / 1 / -1 sitting somewhere inside a list)
+                return any(special(x) for x in n['xs'])
+            if n['k'] == 'idx':
+                return special(n['a'])
+            return False
+        if special(i):
             return self.add({'k': 'c', 'v': 0.5}, {'scalar'}, 'sig')
         return i
 
